@@ -102,6 +102,68 @@ func runC02(c *Ctx) {
 	nV := intOpAudit(c, "C02-R12", vmPkg, "VM.executeInstruction", vmPath, "Opcode",
 		map[string]opClass{"OpLt": opOrdering, "OpLe": opOrdering, "OpGt": opOrdering, "OpGe": opOrdering, "OpAdd": opAdd, "OpSub": opSub, "OpMul": opMul}, "VM")
 	c.Sites["C02-R12#operator-arms"] = nI + nV
+	// reading what is not there: for a field access (o.k) and for an index with a string key (o["k"]) the two
+	// engines take the same way out when the key is absent - both answer (null) or both fail
+	{
+		absent := func(fn *ssa.Function) (string, token.Pos) {
+			if fn == nil {
+				return "", token.NoPos
+			}
+			out := map[string]bool{}
+			var at token.Pos
+			eachInstr(fn, func(_ *ssa.BasicBlock, _ int, ins ssa.Instruction) {
+				lk, ok := ins.(*ssa.Lookup)
+				if !ok || !lk.CommaOk {
+					return
+				}
+				mt, ok := lk.X.Type().Underlying().(*types.Map)
+				if !ok || !isStringType(mt.Key()) {
+					return
+				}
+				// value maps only: map[string]interface{} / map[string]vm.Value
+				if _, isIface := mt.Elem().Underlying().(*types.Interface); !isIface {
+					return
+				}
+				for _, okv := range extractOf(lk, 1) {
+					for _, b := range fn.Blocks {
+						for si, succ := range b.Succs {
+							if known, val := boolOnEdge(b, si, okv); !known || val {
+								continue
+							}
+							at = lk.Pos()
+							errRet := &pathQuery{fn: fn, target: func(x ssa.Instruction) bool {
+								r, ok := x.(*ssa.Return)
+								return ok && len(r.Results) > 0 && !isNilConst(stripConv(retVals(r)[len(r.Results)-1]))
+							}}
+							okRet := &pathQuery{fn: fn, target: func(x ssa.Instruction) bool {
+								r, ok := x.(*ssa.Return)
+								return ok && len(r.Results) > 0 && isNilConst(stripConv(retVals(r)[len(r.Results)-1]))
+							}}
+							if h, _ := errRet.from(succ, 0); h != nil {
+								out["fails"] = true
+							}
+							if h, _ := okRet.from(succ, 0); h != nil {
+								out["answers"] = true
+							}
+						}
+					}
+				}
+			})
+			return setStr(out), at
+		}
+		for _, pr := range []struct{ what, ifn, vfn string }{
+			{"field access o.k", "Interpreter.evaluateFieldAccess", "VM.execGetField"},
+			{"index o[\"k\"]", "Interpreter.evaluateArrayIndexExpr", "VM.execGetIndex"},
+		} {
+			a, _ := absent(c.fn(interpPkg, pr.ifn))
+			b, pos := absent(c.fn(vmPkg, pr.vfn))
+			if a == "" || b == "" {
+				c.info("C02-R12", vmPkg+"."+pr.vfn+"#absent-key", token.NoPos, "absent-key handling not found in both engines for "+pr.what)
+				continue
+			}
+			c.ob("C02-R12", vmPkg+"."+pr.vfn+"#absent-key-handled-like-the-interpreter", pos, a == b, "for "+pr.what+" with a key the object does not have the interpreter {"+a+"} and the VM {"+b+"}: `query.page` / `input.nick` for an optional field is null interpreted and a 500 compiled (and `o[\"b\"]` the other way round) - examples/blog-api tests `query.page != null`")
+		}
+	}
 	// == / != : where the interpreter's equality coerces int and float (it reaches CoerceNumeric), the VM's does too:
 	// its equality helper compares an integer payload, converted, with a float payload
 	{
